@@ -364,3 +364,83 @@ Section TypeSwitch.
     Proof. unfold ts_cases. apply ts_cases_perm_gen. constructor. Qed.
   End WithPerm.
 End TypeSwitch.
+
+(* ---------- type switch: the duplicate detection is complete for an equivalence `ident` ---------- *)
+Section TypeSwitchComplete.
+  Context {T P : Type} (ident : T -> T -> bool).
+  Hypothesis ident_refl : forall a, ident a a = true.
+  Hypothesis ident_sym : forall a b, ident a b = ident b a.
+  Hypothesis ident_trans : forall a b c, ident a b = true -> ident b c = true -> ident a c = true.
+  Variable perm : list (T * P) -> list (T * P).
+  Hypothesis perm_ok : forall l, Permutation l (perm l).
+
+  (* every processed case type is represented in `seen` *)
+  Definition covers (seen : list (T * P)) (t : T) : Prop := exists s, In s seen /\ ident t (fst s) = true.
+
+  Lemma ts_item_covers st c t :
+    covers (fst st) t \/ ident t (fst c) = true -> covers (fst (ts_item ident perm st c)) t.
+  Proof.
+    destruct st as [seen errs]. cbn [fst]. unfold ts_item.
+    destruct (filter (fun s => ident (fst c) (fst s)) (perm seen)) as [|h hs] eqn:E; cbn [fst].
+    - intros [(s & Hs & Hi)|Hc]; [exists s; split; [right; exact Hs|exact Hi]|exists c; split; [left; reflexivity|exact Hc]].
+    - intros [H|Hc]; [exact H|].
+      assert (Hh : In h (filter (fun s => ident (fst c) (fst s)) (perm seen))) by (rewrite E; left; reflexivity).
+      apply filter_In in Hh as [Hin Hid]. exists h. split.
+      + eapply Permutation_in; [apply Permutation_sym, perm_ok|exact Hin].
+      + eapply ident_trans; eauto.
+  Qed.
+
+  Lemma ts_item_errs_grow st c : exists more, snd (ts_item ident perm st c) = snd st ++ more.
+  Proof.
+    destruct st as [seen errs]. unfold ts_item.
+    destruct (filter (fun s => ident (fst c) (fst s)) (perm seen)); cbn [snd]; [exists []; rewrite app_nil_r; reflexivity|eauto].
+  Qed.
+
+  Lemma ts_item_reports st c : covers (fst st) (fst c) -> snd (ts_item ident perm st c) <> snd st.
+  Proof.
+    destruct st as [seen errs]. cbn [fst snd]. intros (s & Hs & Hi). unfold ts_item.
+    destruct (filter (fun s => ident (fst c) (fst s)) (perm seen)) as [|h hs] eqn:E.
+    - exfalso. assert (Hin : In s (filter (fun s => ident (fst c) (fst s)) (perm seen))).
+      { apply filter_In. split; [eapply Permutation_in; [apply perm_ok|exact Hs]|exact Hi]. }
+      rewrite E in Hin. destruct Hin.
+    - cbn [snd map]. intros H. apply (f_equal (@length _)) in H. rewrite app_length in H. cbn [length] in H. lia.
+  Qed.
+
+  Lemma fold_errs_grow cs : forall st, exists more, snd (fold_left (ts_item ident perm) cs st) = snd st ++ more.
+  Proof.
+    induction cs as [|c cs IH]; intros st; cbn [fold_left]; [exists []; rewrite app_nil_r; reflexivity|].
+    destruct (IH (ts_item ident perm st c)) as [m1 H1]. destruct (ts_item_errs_grow st c) as [m0 H0].
+    exists (m0 ++ m1). rewrite H1, H0, app_assoc. reflexivity.
+  Qed.
+
+  (* a case whose type is identical to an earlier case's type is always reported *)
+  Lemma ts_cases_complete pre c mid d post :
+    ident (fst d) (fst c) = true ->
+    snd (ts_cases ident perm (pre ++ c :: mid ++ d :: post)) <> [].
+  Proof.
+    intros Hid. unfold ts_cases. rewrite fold_left_app. cbn [fold_left]. rewrite fold_left_app. cbn [fold_left].
+    set (st0 := fold_left (ts_item ident perm) pre ([], [])).
+    set (st1 := ts_item ident perm st0 c).
+    assert (Hc1 : covers (fst st1) (fst c)) by (apply ts_item_covers; right; apply ident_refl).
+    assert (Hc2 : covers (fst (fold_left (ts_item ident perm) mid st1)) (fst c)).
+    { clearbody st1. clear st0. revert st1 Hc1. induction mid as [|m mid IH]; intros st1 Hc1; cbn [fold_left]; auto.
+      apply IH. apply ts_item_covers. left. exact Hc1. }
+    set (st2 := fold_left (ts_item ident perm) mid st1) in *.
+    assert (Hd : covers (fst st2) (fst d)).
+    { destruct Hc2 as (s & Hs & Hi). exists s. split; auto. eapply ident_trans; eauto. }
+    pose proof (ts_item_reports st2 d Hd) as Hne.
+    destruct (ts_item_errs_grow st2 d) as [m Hm].
+    destruct (fold_errs_grow post (ts_item ident perm st2 d)) as [m' Hm'].
+    rewrite Hm'. intros H. apply app_eq_nil in H as [H _]. rewrite Hm in H. apply app_eq_nil in H as [H1 H2].
+    apply Hne. rewrite Hm, H1, H2. reflexivity.
+  Qed.
+End TypeSwitchComplete.
+
+(* with pointer identity instead of types.Identical a repeated unnamed type is missed: types are
+   (structure, allocation) pairs; two occurrences of []int are two allocations of one structure *)
+Definition ident_struct (a b : nat * nat) : bool := Nat.eqb (fst a) (fst b).
+Definition ident_ptr (a b : nat * nat) : bool := Nat.eqb (fst a) (fst b) && Nat.eqb (snd a) (snd b).
+Lemma pointer_identity_misses_duplicate :
+  exists cs : list ((nat * nat) * nat),
+    snd (ts_cases ident_struct (fun l => l) cs) <> [] /\ snd (ts_cases ident_ptr (fun l => l) cs) = [].
+Proof. exists [((7, 1), 10); ((7, 2), 20)]%nat. split; vm_compute; [discriminate|reflexivity]. Qed.
